@@ -29,6 +29,8 @@ def memtext(isa, b, x, s, d, mode=None, imm=0):
         if x:
             inner += ",%" + wide(isa, x) + ("," + str(s) if s != 1 or True else "")
         return ("%d" % d if d else "") + "(" + inner + ")"
+    if mode == "postreg":
+        return "[%s], x27" % wide(isa, b)   # amount register that no generated instruction writes
     if mode == "post":
         return "[%s], #%d" % (wide(isa, b), imm)
     if mode == "pre":
@@ -58,9 +60,11 @@ def store(isa, fl, src, b, x, s, d, mode=None, imm=0):
     else:
         ins = _base("%s %s, %s" % (m["st"], wide(isa, src), t))
     ins["R"] |= {src, b} | ({x} if x else set())
-    eff = imm if mode == "pre" else (0 if mode == "post" else d)
+    eff = imm if mode == "pre" else (0 if mode in ("post", "postreg") else d)
     ins["ST"] = [{"b": b, "x": x or "", "s": s, "d": eff, "t": t}]
-    if mode:
+    if mode == "postreg":
+        ins["WB"].add(b)
+    elif mode:
         ins["WB"].add(b)
         ins["CH"] = [{"r": b, "kind": "add", "src": b, "v": imm}]
     ins["shape"] = "st" + (mode or "") + ("x" if x else "")
@@ -76,9 +80,11 @@ def load(isa, fl, dst, b, x, s, d, mode=None, imm=0):
         ins = _base("%s %s, %s" % (m["ld"], wide(isa, dst), t))
     ins["R"] |= {b} | ({x} if x else set())
     ins["W"].add(dst)
-    eff = imm if mode == "pre" else (0 if mode == "post" else d)
+    eff = imm if mode == "pre" else (0 if mode in ("post", "postreg") else d)
     ins["LD"] = [{"b": b, "x": x or "", "s": s, "d": eff, "t": t}]
-    if mode:
+    if mode == "postreg":
+        ins["WB"].add(b)
+    elif mode:
         ins["WB"].add(b)
         ins["CH"] = [{"r": b, "kind": "add", "src": b, "v": imm}]
     ins["shape"] = "ld" + (mode or "") + ("x" if x else "")
@@ -192,7 +198,7 @@ def gen_program(isa, fl, rnd, max_mid=4):
         elif r < 0.58:
             instrs.append(clobber(isa, fl, tgt, rnd.choice(DATA[isa])))
         elif r < 0.68 and isa == "aarch64":
-            instrs.append(load(isa, fl, rnd.choice(DATA[isa]), tgt, None, 1, 0, rnd.choice(["pre", "post"]), rnd.choice([8, -8, 16])))
+            instrs.append(load(isa, fl, rnd.choice(DATA[isa]), tgt, None, 1, 0, rnd.choice(["pre", "post", "post", "postreg"]), rnd.choice([8, -8, 16])))
         elif r < 0.76:
             # a later store: to the very same operand (ends the search) or elsewhere
             if rnd.random() < 0.5:
